@@ -32,11 +32,13 @@ ASSUMPTIONS = ["sub-query expressions are not shared between two enclosing queri
 
 def plan(tier, seed):
     n = 220 if tier == "quick" else 2500
-    return [{"n": n, "sub": i} for i in range(16)]
+    specs_ = [{"n": n, "sub": i} for i in range(16)]
+    specs_ += [{"kind": "ix", "n": 40 if tier == "quick" else 400, "sub": 900 + i} for i in range(16)]
+    return specs_
 
 
 def floors(tier):
-    return {"distinct_nontrivial": 200, "cls:pos:cond": 500, "cls:pos:operand_an": 100, "cls:pos:operand_the": 30,
+    return {"cls:feature_interaction_query": 300, "distinct_nontrivial": 200, "cls:pos:cond": 500, "cls:pos:operand_an": 100, "cls:pos:operand_the": 30,
             "cls:pos:argument": 100, "cls:pos:correlated_the": 100, "cls:pos:correlated_an": 100, "cls:pos:operand_value_eq": 100, "cls:pos:pred_arg_bound": 100, "cls:pos:ctor_arg_bound": 100, "cls:pos:operand_in_or": 100, "cls:pos:operand_attr": 100, "cls:pos:container": 100, "cls:pos:alias_in_or": 100, "cls:conn:&": 150, "cls:conn:|": 150, "cls:sub:set": 100, "cls:sub:ent0": 100,
             "cls:sub:ent1": 100, "cls:with_plain": 100, "re:An@.*\\.enter": 1000}
 
@@ -77,6 +79,11 @@ def gen_case(rng):
 
 
 def cases(spec, ctx):
+    if spec.get("kind") == "ix":
+        from .. import ix
+        for i in range(spec["n"]):
+            yield {"ix": ix.gen_case_for(ctx.rng(spec["sub"], i), ID)}
+        return
     for i in range(spec["n"]):
         yield gen_case(ctx.rng(spec["sub"], i))
 
@@ -268,6 +275,9 @@ def run_for_c05(case, caching, times):
 
 
 def check_case(case, ctx):
+    if "ix" in case:
+        from .. import ix
+        return ix.check(case["ix"], ctx)
     world = D.build_world(case["world"])
     if case["pos"] == "operand_the" and n_sub_solutions(case, world) != 1:
         case = dict(case)
@@ -315,6 +325,8 @@ def check_case(case, ctx):
 
 
 def classify(f, ctx):
+    if "ix" in f.get("case", {}):
+        return None
     case = f["case"]
     if "which" not in f:
         return None
